@@ -157,8 +157,6 @@ def lex(s):
                 toks.append(Tok("qname", s[i + 1:], i, n - 1, complete=False))
                 out.unterminated = "`"
                 return out
-            if "\\" in s[i + 1:j]:
-                out.unspec.append("back-slash inside back-ticks")
             if j == i + 1:
                 out.unspec.append("empty back-ticked name")
             if toks and toks[-1].end == i - 1 and toks[-1].kind in WORD_KINDS + ("call", "string"):
